@@ -169,4 +169,14 @@ TEXT["C12"] = {
     "note": _TB + "The specification-level reader is this check's reading of the specifications; fixed-Huffman DEFLATE is exercised, its inversion theorem is a hypothesis (DeflateOk) proved for stored blocks; one level of sharding; data types of 1/2/4/8 bytes.",
     "technique": "Lean 4 proofs of layout-independence of a specification-level reader/writer + two-directional differential run (zarrs writes/model reads, model writes with foreign layouts/zarrs reads)",
 }
+TEXT["C07"] = {
+    "level": "Machine-checked proof that what distinguishes the two APIs is unobservable in the model: the per-chunk steps of a multi-chunk write run in ANY order (the order concurrent futures complete) succeed exactly "
+             "when the sequential run does and leave the same store; two routes to the same array that differ in key naming, codec or elision (the synchronous-only partial-encoding write strategy changes the stored "
+             "bytes) return the same elements for every array-subset, chunk and multi-chunk read after every history and after every prefix of it, and with the same key naming store the same set of keys. On the "
+             "real code every generated history (the C01 generator: all codecs incl. nested sharding, all grids, data types, elision on/off, one fifth with partial encoding on the sync side) is executed through the "
+             "sync methods and through the async_* methods (incl. async partial decoders and re-opening) on stores of identical semantics; each pair of outcomes, the key sets and the readable contents are compared "
+             "with each other and with the C01 model; hierarchy queries (children, child_paths, child_groups/arrays, Node::open, node_exists) are run in both forms over one store and judged by the C13 model.",
+    "note": _TB + "Partial: the async executor's interleavings are not enumerated (the order-independence theorem covers completion orders of per-chunk steps on distinct keys; same-key concurrency is C18's subject); error classes are compared as ok/err/none. The async store is an adapter over MemoryStore so that only the API layers differ (object_store rejects zero-length ranges, which is outside C08's contract).",
+    "technique": "Lean 4 proofs of completion-order independence and route equivalence + lock-step differential execution of every history through the sync and async APIs",
+}
 NOT_YET = {}
